@@ -4,6 +4,7 @@ package main
 // [(get-value ...)] (pop). Any "(error" line, "unknown" or a timeout makes the query inconclusive.
 
 import (
+	"syscall"
 	"bufio"
 	"os"
 	"fmt"
@@ -66,6 +67,9 @@ func NewSolver(kind string, timeout time.Duration) (*Solver, error) {
 func (s *Solver) start() error {
 	bin, args := solverArgs(s.kind, int(s.timeout/time.Millisecond))
 	s.cmd = exec.Command(bin, args...)
+	// the solver must not outlive the engine (a killed or timed-out run would otherwise leave solvers grinding on
+	// their last query)
+	s.cmd.SysProcAttr = &syscall.SysProcAttr{Pdeathsig: syscall.SIGKILL}
 	in, err := s.cmd.StdinPipe()
 	if err != nil {
 		return err
